@@ -127,28 +127,7 @@ def native_replay(h, prop, workdir):
     from . import cscan
     for k, tu in enumerate(nat.get('tus', h.tus)):
         path = os.path.join(core.REPO, tu)
-        src = open(path).read()
-        m = cscan.mask(src)
-        edits = []
-        for fn in so:
-            try:
-                sig, bo, bc = cscan.find_function(src, m, fn)
-                edits.append((sig, fn))
-            except LookupError:
-                pass
-        for sig, fn in sorted(edits, reverse=True):
-            # forward declaration under the original name (taken from the definition's own signature),
-            # then rename the definition
-            k2 = sig - 1
-            while k2 > 0 and m[k2] not in ';}':
-                k2 -= 1
-            ds = k2 + 1 if k2 > 0 else 0
-            # skip blank space and (masked) preprocessor lines/comments
-            while ds < sig and m[ds].isspace():
-                ds += 1
-            close = cscan.match_close(m, src.index('(', sig), '(', ')')
-            proto = src[ds:close + 1] + ';\n'
-            src = src[:ds] + proto + src[ds:sig] + 'v_real_' + src[sig:]
+        src, edits = cscan.rename_definitions(open(path).read(), so)
         if edits:
             path = os.path.join(workdir, 'tu%d_%s' % (k, os.path.basename(tu)))
             open(path, 'w').write('#line 1 "%s"\n' % os.path.join(core.REPO, tu) + src)
